@@ -73,7 +73,7 @@ class OnceTimedOperation(AbstractDenseTimeOnlineOperation):
                     sample_result.append(last)
                 if self.residual_start > b[0]:
                     last = [self.residual_start, b[2]]
-                    self.prev.append((self.residual_start, b[1], b[2]))
+                self.prev.append((self.residual_start, b[1], b[2]))
             else:
                 self.prev.append(b)
             prev = b[2]
